@@ -1,11 +1,17 @@
 /-
   EG.Driver.Styled — model side of the `styled.*` correspondence streams (harness/src/m_styled.rs).
 
-  A shape kind is served by giving its `StyledView` (what the streams observe of a styled shape)
-  as a function of the translation applied to the primitive; the result lines are formatted from
-  the view exactly as `execute` in m_styled.rs formats the real results. Kinds without a model
-  return `none` (printed `skip`). Modelled kinds: `rect` (EG.Model.StyledRect), `circle`, `ellipse`,
-  `rrect` (EG.Model.Circle / Ellipse / RoundedRect).
+  A shape kind is served through its `StyledView` (Driver/ShapeView.lean: what the streams observe of
+  a styled shape - call list of `draw()`, `pixels()`, bounding boxes - as a function of the
+  translation applied to the primitive); the result lines are formatted from the view exactly as
+  `execute` in m_styled.rs formats the real results. Every shape kind of shapes.rs is served: `rect`
+  (EG.Model.StyledRect), `circle`, `ellipse`, `rrect` (EG.Model.Circle / Ellipse / RoundedRect), `line`
+  (EG.Model.ThickLine), `poly` (EG.Model.ThickPolyline), `tri` (EG.Model.ThickTriangle) with every
+  stroke width, alignment and colour option, `arc` / `sector` (EG.Model.StyledArc / StyledSector) when
+  the op line carries the hook tokens `hk tag lx ly rx ry [bk bnx bny]` (appended by the generator;
+  lines without them are printed `skip`). `styled.areas` is served for the closed shapes only (the
+  only ones it is generated for). Ops with a dotted stroke (`styled.* dotted ..`) have no model
+  (`skip`). Where a model function is `Option`-valued and returns `none` (fuel), the line is `stuck`.
 -/
 import EG.Driver.ShapeView
 namespace EG.Driver
